@@ -510,7 +510,11 @@ def evaluate(case):
 
 
 # ---------------------------------------------------------------------------------------------------
-# which variant does the code implement?  (DESIGN §6: replay the witnesses, then demand correspondence with that variant)
+# The reference is the repaired behaviour (`intended`): all five decision points were repaired in /repo (487318e D15,
+# a145603 D16, 5dc8eac CNAME at a cut, d608fe5 D19, a30e868 D20), so correspondence is demanded with that variant and a tree
+# in which one of the defects returns is a VIOLATION (model/implementation disagree, and the oracle supplies the input).
+# The witnesses are still replayed on the implementation, for the evidence file only.
+REFERENCE_VARIANT = "11111"
 # ---------------------------------------------------------------------------------------------------
 EX = ["6578616d706c65", ""]     # example.
 W = {
@@ -570,7 +574,7 @@ def spec_line(case):
 
 
 def eval_case(ctx: Ctx, case: dict):
-    variant = detect_variant()
+    variant = REFERENCE_VARIANT
     trace, spec, fails, stats = evaluate(case)
     ctx.corr(op_line(case, variant), trace, case)
     ctx.corr(spec_line(case), spec, case)
@@ -976,7 +980,7 @@ def generate(ctx: Ctx, scale: int, rng):
 def run(ctx: Ctx):
     v = detect_variant()
     ctx.extra["variant_implemented"] = dict(zip(ORDER, v))
-    ctx.notes.append("decision points as implemented by the working tree (1 = repaired): " + ", ".join(f"{k}={b}" for k, b in zip(ORDER, v)))
+    ctx.notes.append("decision points as implemented by the working tree (1 = repaired; the reference is all 1): " + ", ".join(f"{k}={b}" for k, b in zip(ORDER, v)))
     for p in sorted(glob.glob(os.path.join(VERIF, "corpus", "C20", "*.json"))):
         c = json.load(open(p))
         ctx.case(("corpus", p), sample=None)
@@ -1007,8 +1011,8 @@ def replay(ctx: Ctx, obj: dict):
 
 
 LEVEL = {
-    "text": "Lean 4 theorems (no sorry, axioms propext/Classical.choice/Quot.sound only) over an executable model of dns/btreezone.py (WritableVersion.put_rdataset/delete_rdataset/delete_node, _maybe_cow_with_name with the per-version changed set, update_glue_flag, Delegations.get_delegation/is_glue, ImmutableVersion.bounds, the thin transaction layer) on a sorted association list keyed by names in the canonical order of Name.fullcompare (order laws - total order, antisymmetry on lower-case names, convexity of subtrees, ancestor chains, monotonicity of common-label counts - are proved from the model of fullcompare itself). Proved for ALL histories of transactions (commit, rollback, replacement, failing operations) over legal names, relativized and absolute zones, and ALL query names: (1) iteration_canonical - node store and index strictly increasing, every variant, no guard; (2) flags_eq_spec / index_eq_spec - every node flag and the delegation index equal the functions of zone content given by the documentation, full theorem for the repaired variant; flags_eq_spec_partial - the same for the code as shipped (or any partial repair) under a decidable guard that excludes exactly the triggers of D15, D16 and CNAME-at-a-cut, with kernel-checked counter-examples for each; (3) bounds_eq_spec / bounds_eq_spec_partial - bounds(name) equals its specification (nearest non-occluded neighbours, closest encloser counting empty non-terminals, at-or-below-delegation bit), full for the repaired variant, guarded for the shipped code (D19, D20), with counter-examples. Tie: whole-history differential correspondence observed after every operation and every commit, all five decision points probed on the implementation so that the model variant follows the code; the oracle's recompute-from-definition is compared with the Lean specification itself on every history; the theorems' guards are evaluated by the model along every history and wherever they hold the property is required of the implementation.",
-    "note": "Trusted: Lean kernel; the statements in lean/Props/C20.lean and the specification/guard definitions in lean/Model/BTreeZone.lean; the correspondence harness and its generators (differential testing bounds the tie); the B-tree is replaced by a sorted association list (its refinement is property C19); owner-name case is canonicalised (lower-cased keys). Readings fixed: neighbours and closest encloser are taken among non-occluded names; bounds presupposes an apex node (the code asserts it). Defects of the unchanged tree D15, D16, D19, D20 and CNAME-put-at-a-cut are genuine violations, recorded narrowly in KNOWN_FINDINGS.json with witnesses in corpus/C20; four-line repairs for D15, D19, D20 and the CNAME case were validated against this check (variant detected, finding gone, no correspondence break) and the btreezone/btree/zone test files; D16 needs a redesign of update_glue_flag (the repaired model step glueStepFixed describes one).",
+    "text": "Lean 4 theorems (no sorry, axioms propext/Classical.choice/Quot.sound only) over an executable model of dns/btreezone.py (WritableVersion.put_rdataset/delete_rdataset/delete_node, _maybe_cow_with_name with the per-version changed set, update_glue_flag, Delegations.get_delegation/is_glue, ImmutableVersion.bounds, the thin transaction layer) on a sorted association list keyed by names in the canonical order of Name.fullcompare (order laws - total order, antisymmetry on lower-case names, convexity of subtrees, ancestor chains, monotonicity of common-label counts - are proved from the model of fullcompare itself). Proved at full strength, with no guard, for the code as it is now (model variant `intended`), for ALL histories of transactions (commit, rollback, replacement, failing operations, initial load in any record order) over legal names, relativized and absolute zones, and ALL query names: (1) iteration_canonical - node store and index strictly increasing; (2) flags_eq_spec / index_eq_spec - every node flag and the delegation index equal the functions of zone content given by the documentation, nested cuts included; (3) bounds_eq_spec - bounds(name) equals its specification (nearest non-occluded neighbours, closest encloser counting empty non-terminals, at-or-below-delegation bit). The `_partial` theorems state the same for any other variant of the five decision points (in particular the code before the repairs) under decidable guards, with kernel-checked counter-examples showing each former defect. Tie: whole-history differential correspondence with the `intended` variant observed after every operation and every commit and on zones loaded from text; the oracle's recompute-from-definition is compared with the Lean specification itself on every history; the theorems' guards (identically true for `intended`) are evaluated by the model along every history and the property is required of the implementation wherever they hold, i.e. everywhere.",
+    "note": "Trusted: Lean kernel; the statements in lean/Props/C20.lean and the specification/guard definitions in lean/Model/BTreeZone.lean; the correspondence harness and its generators (differential testing bounds the tie); the B-tree is replaced by a sorted association list (its refinement is property C19); owner-name case is canonicalised (lower-cased keys). Readings fixed: neighbours and closest encloser are taken among non-occluded names; bounds presupposes an apex node (the code asserts it). Six C20 defects of the pinned tree (D15, D16 nested cuts, D19, D20, CNAME put at a cut, $ORIGIN load) were genuine violations; all are repaired in /repo (KNOWN_FINDINGS.json `fixed`), their witnesses stay in corpus/C20 as regression cases, and nothing is recorded as a known finding any more: a tree in which one of them returns is reported as VIOLATION with a concrete history.",
     "technique": "Lean 4 proof (invariant over histories with a frame theorem for the specification, refinement of cursor walks on a sorted list to filters/maps, order laws of the canonical name order derived from the model of fullcompare) + model-vs-implementation correspondence + recompute-from-definition oracle + guard/implementation implication check",
     "design_ref": "DESIGN.md §7 C20",
 }
